@@ -81,6 +81,11 @@ def write_replay(pid, ob, failed, trace, verifier_text, defines):
     if ob.replayable and trace and ob.stream_replay:
         import streamgen
         vals, avals, scal, arrs = extract_values(trace, harness_path)
+        for st in trace or []:
+            if st.get('stepType') == 'assignment' and st.get('lhs') in ob.trace_vars:
+                v = _val(st)
+                if v is not None:
+                    vals[st['lhs']] = v
         info['values'] = vals
         try:
             sr, status = streamgen.STREAM_REPLAYS[ob.stream_replay](vals, rdir)
